@@ -314,8 +314,14 @@ package core
 //@   modifies nothing
 
 // The per-store sub-indexes are separate trees: maintaining them never touches the main index (see C07).
+// An item is keyed by its region's start key in every tree that holds it (the item object is shared between the main
+// index and the per-store sub-indexes), so its region may only be replaced by one with another range while NO tree holds
+// it.  inSub: some per-store sub-index holds the item.
+//@ pure inSubMap(m map[uint64]*regionTree, x *regionItem) = exists s uint64 :: in(m, s) && bthas[m[s].tree][x]
+//@ pure inSub(r *RegionsInfo, x *regionItem) = inSubMap(r.leaders, x) || inSubMap(r.followers, x) || inSubMap(r.learners, x) || inSubMap(r.pendingPeers, x)
 //@ func (*RegionsInfo).removeRegionFromSubTree
 //@   assumed
+//@   ensures [removed-from-every-sub-index] forall x *regionItem :: {x.region} x.region == region ==> !inSub(r, x)
 //@   ensures forall x *regionItem :: {inTree(r, x)} inTree(r, x) == old(inTree(r, x))
 //@   ensures [only-shrinks] forall u *btree.BTree, x *regionItem :: {bthas[u][x]} bthas[u][x] ==> old(bthas[u][x])
 //@   ensures btlen[r.tree.tree] == old(btlen[r.tree.tree])
@@ -464,6 +470,7 @@ package core
 //@   at remove 1 after assert [old-item-unindexed] !inTree(r, item) && itemsOK(r.tree.tree) && disjointT(r.tree.tree)
 //@   at remove 1 mode index
 //@   at update 1 mode index
+//@   at update 1 assert [key-stable-in-sub-indexes] !inSub(r, item)
 //@   at updateStat 1 assert [same-range-stays-disjoint] forall x *regionItem :: {inTree(r, x)} inTree(r, x) && x != item ==> !ovl(x.region, region)
 //@   at update 1 assert [index-is-old-minus-item] forall x *regionItem :: {inTree(r, x)} inTree(r, x) ==> old(inTree(r, x)) && x != item && x.region == old(x.region) && old(r.regions[x.region.meta.Id]) == x && x.region.meta.Id != region.meta.Id
 //@   at update 1 after assert [displaced-wf] forall j :: {r0[j]} 0 <= j && j < len(r0) ==> r0[j] != nil && r0[j].meta != nil
